@@ -9,7 +9,7 @@ ASSUME = ['demonic oracle (kani/src/oracle.rs): any correct SatSolver may return
 def run(tier, seed):
     return kani_check.run("C06", ["c06_"], tier, seed, dict(
         functions=FUNCS, bounds="several queries put to ONE solver object (repetition, order, certificate flag) and the same credulous query through the three selectable encodings of the complete solver; the framework is compared before and after; " + BOUNDS, assumptions=ASSUME),
-        jobs=4, timeout_s=1500 if tier == "quick" else 5400)
+        jobs=6)
 
 
 def replay(path):
